@@ -544,4 +544,32 @@ def getTxsGroupedPages (s : Store) (lockSearch : Bool) (q : Script) (exact : Boo
     let (page, last) := getTxsGrouped s lockSearch q exact fs br desc limit cursor
     if page.isEmpty then [[]] else page :: getTxsGroupedPages s lockSearch q exact fs br desc limit fuel (some last)
 
+
+/-! ## `tip()` as the code computes it when NO Header row exists
+
+`tip()` / `get_indexer_tip` / the tip of `get_cells_capacity` seek to the greatest key below
+`[KeyPrefix::Header + 1]` and decode it WITHOUT testing that it is a Header key. When no Header row
+exists, a residue row is decoded: for a ConsumedOutPoint row (which `rollback` never deletes) the
+"number" is the consuming block's number and the "hash" is the out-point's transaction hash. Rows of
+the families in between (hash-ordered or script-ordered keys) cannot be decoded in this model. -/
+inductive TipAns
+  | none
+  | header (n h : Nat)
+  | residue (n : Nat)   -- decoded from a ConsumedOutPoint row: (n, some transaction hash)
+  | garbage             -- decoded from another non-Header row
+deriving DecidableEq, Repr
+
+def listMax : List Nat → Option Nat
+  | [] => none
+  | a :: r => match listMax r with | none => some a | some m => some (max a m)
+
+def tipAsCode (s : Store) : TipAns :=
+  match tip s with
+  | some (n, h) => .header n h
+  | none =>
+    if s.any (fun e => match e.1 with | .consumed .. | .header .. => false | _ => true) then .garbage else
+    match listMax (consumedNumbers s) with
+    | some n => .residue n
+    | none => .none
+
 end CkbVerif.Indexer
